@@ -1013,6 +1013,9 @@ class Fn:
                     out |= self.back_slice_calls(a, depth + 1, seen)
             elif d[0] == "stmt":
                 rv = d[3]
+                if rv["k"] == "cast":
+                    # pseudo-name so that rules can see conversions in a slice
+                    out.add("cast:%s:%s->%s" % (rv.get("kind"), rv.get("from"), rv.get("to")))
                 for o in rvalue_operands(rv):
                     out |= self.back_slice_calls(o, depth + 1, seen)
                 if rv["k"] in ("ref", "discriminant", "rawptr"):
